@@ -242,7 +242,7 @@ pub fn run(ctx: &Ctx) -> Report {
     rep.absorb(out);
     rep.extra.insert("content_strings".into(), json!({"tokens": nt, "max_len": l, "cases": total}));
     // (2)
-    let out = run_random(ctx.seed, ctx.tier.pick(200_000, 8_000_000), 1500, decode, |c, st| check_with(&kf, c, st));
+    let out = run_random(ctx.seed, ctx.tier.pick(1_000_000, 15_000_000), 1500, decode, |c, st| check_with(&kf, c, st));
     rep.absorb(out);
     for l in ["indicator expected", "meta that must not fire", "content string yields a label", "label extracted from content"] {
         rep.need(l, 200);
